@@ -106,7 +106,7 @@ def run_selfloop(desc, res):
 
 
 LABELS_LONG = ["0", "1", "2", "3", "4", "5", "6", "7", "8", "9", "10", "11"]
-LABELS_LONG_ODD = ["a", "B", "9", "10", "_x", "Zz", "b2", "0x", "C", "c", "100", "Aa"]
+LABELS_LONG_ODD = ["a", "Ba", "9", "109", "_x", "Zz", "b2a", "0x", "C", "c", "100", "Aa"]
 
 
 def run_families(desc, res):
